@@ -50,14 +50,12 @@ import (
 	"go/types"
 	"log"
 	"os"
-	"reflect"
 	"runtime"
+	"runtime/debug"
 	"slices"
-	"sync/atomic"
-	_ "unsafe"
+	"strings"
 
 	"golang.org/x/tools/go/ssa"
-	"golang.org/x/tools/internal/typeparams"
 )
 
 type continuation int
@@ -80,16 +78,14 @@ type methodSet map[string]*ssa.Function
 
 // State shared between all interpreted goroutines.
 type interpreter struct {
-	osArgs             []value                // the value of os.Args
-	prog               *ssa.Program           // the SSA program
-	globals            map[*ssa.Global]*value // addresses of global variables (immutable)
-	mode               Mode                   // interpreter options
-	reflectPackage     *ssa.Package           // the fake reflect package
-	errorMethods       methodSet              // the method set of reflect.error, which implements the error interface.
-	rtypeMethods       methodSet              // the method set of rtype, which implements the reflect.Type interface.
-	runtimeErrorString types.Type             // the runtime.errorString type
-	sizes              types.Sizes            // the effective type-sizing function
-	goroutines         int32                  // atomically updated
+	*Program
+	globals map[*ssa.Global]*value // addresses of global variables (immutable)
+	mode    Mode                   // interpreter options
+	run     *runState              // the current run
+	inited  map[*ssa.Package]bool  // packages whose init ran (or is running)
+
+	onceDone map[*value]bool
+	syncMaps map[*value]*smap
 }
 
 type deferred struct {
@@ -111,6 +107,8 @@ type frame struct {
 	panicking        bool
 	panic            interface{}
 	phitemps         []value // temporaries for parallel phi assignment
+	depth            int
+	cur              ssa.Instruction
 }
 
 func (fr *frame) get(key ssa.Value) value {
@@ -125,6 +123,9 @@ func (fr *frame) get(key ssa.Value) value {
 		return constValue(key)
 	case *ssa.Global:
 		if r, ok := fr.i.globals[key]; ok {
+			if key.Pkg != nil && !fr.i.inited[key.Pkg] && !fr.i.allowUninit(key) {
+				panic(engineErrorf("read of global %s of package %s whose init is not executed (add the package to the init whitelist or the variable to the allow list)", key.Name(), key.Pkg.Pkg.Path()))
+			}
 			return r
 		}
 	}
@@ -145,8 +146,12 @@ func (fr *frame) runDefer(d *deferred) {
 	defer func() {
 		if !ok {
 			// Deferred call created a new state of panic.
+			r := recover()
+			if !isTargetPanic(r) {
+				panic(asEngineError(r))
+			}
 			fr.panicking = true
-			fr.panic = recover()
+			fr.panic = r
 		}
 	}()
 	call(fr.i, fr, d.instr.Pos(), d.fn, d.args)
@@ -195,10 +200,10 @@ func visitInstr(fr *frame, instr ssa.Instruction) continuation {
 		// no-op
 
 	case *ssa.UnOp:
-		fr.env[instr] = unop(instr, fr.get(instr.X))
+		fr.env[instr] = fr.i.unop(instr, fr.get(instr.X))
 
 	case *ssa.BinOp:
-		fr.env[instr] = binop(instr.Op, instr.X.Type(), fr.get(instr.X), fr.get(instr.Y))
+		fr.env[instr] = fr.i.binop(instr.Op, instr.X.Type(), fr.get(instr.X), fr.get(instr.Y))
 
 	case *ssa.Call:
 		fn, args := prepareCall(fr, &instr.Call)
@@ -211,7 +216,7 @@ func visitInstr(fr *frame, instr ssa.Instruction) continuation {
 		fr.env[instr] = fr.get(instr.X) // (can't fail)
 
 	case *ssa.Convert:
-		fr.env[instr] = conv(instr.Type(), instr.X.Type(), fr.get(instr.X))
+		fr.env[instr] = fr.i.conv(instr.Type(), instr.X.Type(), fr.get(instr.X))
 
 	case *ssa.SliceToArrayPointer:
 		fr.env[instr] = sliceToArrayPointer(instr.Type(), instr.X.Type(), fr.get(instr.X))
@@ -223,7 +228,7 @@ func visitInstr(fr *frame, instr ssa.Instruction) continuation {
 		fr.env[instr] = fr.get(instr.Tuple).(tuple)[instr.Index]
 
 	case *ssa.Slice:
-		fr.env[instr] = slice(fr.get(instr.X), fr.get(instr.Low), fr.get(instr.High), fr.get(instr.Max))
+		fr.env[instr] = fr.i.slice(fr.get(instr.X), fr.get(instr.Low), fr.get(instr.High), fr.get(instr.Max))
 
 	case *ssa.Return:
 		switch len(instr.Results) {
@@ -250,11 +255,15 @@ func visitInstr(fr *frame, instr ssa.Instruction) continuation {
 		fr.get(instr.Chan).(chan value) <- fr.get(instr.X)
 
 	case *ssa.Store:
-		store(typeparams.MustDeref(instr.Addr.Type()), fr.get(instr.Addr).(*value), fr.get(instr.Val))
+		addr := fr.get(instr.Addr).(*value)
+		if addr == nil {
+			panic(runtimePanic{"runtime error: invalid memory address or nil pointer dereference"})
+		}
+		store(mustDeref(instr.Addr.Type()), addr, fr.get(instr.Val))
 
 	case *ssa.If:
 		succ := 1
-		if fr.get(instr.Cond).(bool) {
+		if fr.i.decide(fr.get(instr.Cond), BrIf, fr.i.site(instr)) {
 			succ = 0
 		}
 		fr.prevBlock, fr.block = fr.block, fr.block.Succs[succ]
@@ -279,14 +288,10 @@ func visitInstr(fr *frame, instr ssa.Instruction) continuation {
 
 	case *ssa.Go:
 		fn, args := prepareCall(fr, &instr.Call)
-		atomic.AddInt32(&fr.i.goroutines, 1)
-		go func() {
-			call(fr.i, nil, instr.Pos(), fn, args)
-			atomic.AddInt32(&fr.i.goroutines, -1)
-		}()
+		fr.i.spawn(fr, instr, fn, args)
 
 	case *ssa.MakeChan:
-		fr.env[instr] = make(chan value, asInt64(fr.get(instr.Size)))
+		fr.env[instr] = make(chan value, fr.i.intS(fr.get(instr.Size), "chan size"))
 
 	case *ssa.Alloc:
 		var addr *value
@@ -298,34 +303,39 @@ func visitInstr(fr *frame, instr ssa.Instruction) continuation {
 			// local
 			addr = fr.env[instr].(*value)
 		}
-		*addr = zero(typeparams.MustDeref(instr.Type()))
+		*addr = zero(mustDeref(instr.Type()))
 
 	case *ssa.MakeSlice:
-		slice := make([]value, asInt64(fr.get(instr.Cap)))
+		capv := fr.i.intS(fr.get(instr.Cap), "make cap")
+		lenv := fr.i.intS(fr.get(instr.Len), "make len")
+		if lenv < 0 || capv < lenv || capv > 1<<26 {
+			panic(runtimePanic{fmt.Sprintf("runtime error: makeslice: len/cap out of range (%d, %d)", lenv, capv)})
+		}
+		slice := make([]value, capv)
 		tElt := instr.Type().Underlying().(*types.Slice).Elem()
 		for i := range slice {
 			slice[i] = zero(tElt)
 		}
-		fr.env[instr] = slice[:asInt64(fr.get(instr.Len))]
+		fr.env[instr] = slice[:lenv]
 
 	case *ssa.MakeMap:
-		var reserve int64
 		if instr.Reserve != nil {
-			reserve = asInt64(fr.get(instr.Reserve))
+			fr.i.intS(fr.get(instr.Reserve), "make map size")
 		}
-		if !fitsInt(reserve, fr.i.sizes) {
-			panic(fmt.Sprintf("ssa.MakeMap.Reserve value %d does not fit in int", reserve))
-		}
-		fr.env[instr] = makeMap(instr.Type().Underlying().(*types.Map).Key(), reserve)
+		fr.env[instr] = makeMap(instr.Type().Underlying().(*types.Map).Key(), 0)
 
 	case *ssa.Range:
-		fr.env[instr] = rangeIter(fr.get(instr.X), instr.X.Type())
+		fr.env[instr] = fr.i.rangeIter(fr, fr.get(instr.X), instr.X.Type())
 
 	case *ssa.Next:
 		fr.env[instr] = fr.get(instr.Iter).(iter).next()
 
 	case *ssa.FieldAddr:
-		fr.env[instr] = &(*fr.get(instr.X).(*value)).(structure)[instr.Field]
+		p := fr.get(instr.X).(*value)
+		if p == nil {
+			panic(runtimePanic{"runtime error: invalid memory address or nil pointer dereference"})
+		}
+		fr.env[instr] = &(*p).(structure)[instr.Field]
 
 	case *ssa.Field:
 		fr.env[instr] = fr.get(instr.X).(structure)[instr.Field]
@@ -333,11 +343,31 @@ func visitInstr(fr *frame, instr ssa.Instruction) continuation {
 	case *ssa.IndexAddr:
 		x := fr.get(instr.X)
 		idx := fr.get(instr.Index)
+		var elems []value
 		switch x := x.(type) {
 		case []value:
-			fr.env[instr] = &x[asInt64(idx)]
+			elems = x
 		case *value: // *array
-			fr.env[instr] = &(*x).(array)[asInt64(idx)]
+			if x == nil {
+				panic(runtimePanic{"runtime error: invalid memory address or nil pointer dereference"})
+			}
+			elems = (*x).(array)
+		}
+		if s, ok := idx.(sym); ok && elems != nil && onlyLoaded(instr) {
+			k := fr.i.boundsS(s, len(elems), "element")
+			if _, ok := selectS(elems, s, k); ok {
+				fr.env[instr] = &symref{elems: elems, idx: s, k: k}
+				break
+			}
+			fr.env[instr] = &elems[int(asInt64(fr.i.concretize(s, "element index")))]
+			break
+		}
+		switch x := x.(type) {
+		case []value:
+			fr.env[instr] = &x[fr.i.indexS(idx, len(x), "slice")]
+		case *value: // *array
+			a := (*x).(array)
+			fr.env[instr] = &a[fr.i.indexS(idx, len(a), "array")]
 		default:
 			panic(fmt.Sprintf("unexpected x type in IndexAddr: %T", x))
 		}
@@ -348,25 +378,33 @@ func visitInstr(fr *frame, instr ssa.Instruction) continuation {
 
 		switch x := x.(type) {
 		case array:
-			fr.env[instr] = x[asInt64(idx)]
+			fr.env[instr] = fr.i.indexValue(x, idx, "array")
 		case string:
-			fr.env[instr] = x[asInt64(idx)]
+			if _, ok := idx.(sym); ok && len(x) <= 256 {
+				fr.env[instr] = fr.i.indexValue(strToBytes(x), idx, "string")
+			} else {
+				fr.env[instr] = x[fr.i.indexS(idx, len(x), "string")]
+			}
+		case *symstr:
+			if _, ok := idx.(sym); ok && len(x.s) <= 256 {
+				fr.env[instr] = fr.i.indexValue(strToBytes(x), idx, "string")
+			} else {
+				fr.env[instr] = byteAt(x, fr.i.indexS(idx, len(x.s), "string"))
+			}
 		default:
 			panic(fmt.Sprintf("unexpected x type in Index: %T", x))
 		}
 
 	case *ssa.Lookup:
-		fr.env[instr] = lookup(instr, fr.get(instr.X), fr.get(instr.Index))
+		fr.env[instr] = fr.i.lookup(instr, fr.get(instr.X), fr.get(instr.Index))
 
 	case *ssa.MapUpdate:
 		m := fr.get(instr.Map)
 		key := fr.get(instr.Key)
 		v := fr.get(instr.Value)
 		switch m := m.(type) {
-		case map[value]value:
-			m[key] = v
-		case *hashmap:
-			m.insert(key.(hashable), v)
+		case *smap:
+			m.insert(fr.i, key, v)
 		default:
 			panic(fmt.Sprintf("illegal map type: %T", m))
 		}
@@ -385,47 +423,7 @@ func visitInstr(fr *frame, instr ssa.Instruction) continuation {
 		log.Fatal("unreachable") // phis are processed at block entry
 
 	case *ssa.Select:
-		var cases []reflect.SelectCase
-		if !instr.Blocking {
-			cases = append(cases, reflect.SelectCase{
-				Dir: reflect.SelectDefault,
-			})
-		}
-		for _, state := range instr.States {
-			var dir reflect.SelectDir
-			if state.Dir == types.RecvOnly {
-				dir = reflect.SelectRecv
-			} else {
-				dir = reflect.SelectSend
-			}
-			var send reflect.Value
-			if state.Send != nil {
-				send = reflect.ValueOf(fr.get(state.Send))
-			}
-			cases = append(cases, reflect.SelectCase{
-				Dir:  dir,
-				Chan: reflect.ValueOf(fr.get(state.Chan)),
-				Send: send,
-			})
-		}
-		chosen, recv, recvOk := reflect.Select(cases)
-		if !instr.Blocking {
-			chosen-- // default case should have index -1.
-		}
-		r := tuple{chosen, recvOk}
-		for i, st := range instr.States {
-			if st.Dir == types.RecvOnly {
-				var v value
-				if i == chosen && recvOk {
-					// No need to copy since send makes an unaliased copy.
-					v = recv.Interface().(value)
-				} else {
-					v = zero(st.Chan.Type().Underlying().(*types.Chan).Elem())
-				}
-				r = append(r, v)
-			}
-		}
-		fr.env[instr] = r
+		fr.env[instr] = fr.i.selectInstr(fr, instr)
 
 	default:
 		panic(fmt.Sprintf("unexpected instruction: %T", instr))
@@ -436,6 +434,22 @@ func visitInstr(fr *frame, instr ssa.Instruction) continuation {
 	// }
 
 	return kNext
+}
+
+// onlyLoaded reports whether the address computed by instr is used only as
+// the operand of loads.
+func onlyLoaded(instr *ssa.IndexAddr) bool {
+	refs := instr.Referrers()
+	if refs == nil || len(*refs) == 0 {
+		return false
+	}
+	for _, r := range *refs {
+		u, ok := r.(*ssa.UnOp)
+		if !ok || u.Op != token.MUL {
+			return false
+		}
+	}
+	return true
 }
 
 // prepareCall determines the function value and argument values for a
@@ -450,7 +464,7 @@ func prepareCall(fr *frame, call *ssa.CallCommon) (fn value, args []value) {
 		// Interface method invocation.
 		recv := v.(iface)
 		if recv.t == nil {
-			panic("method invoked on nil interface")
+			panic(runtimePanic{"runtime error: invalid memory address or nil pointer dereference (method call on nil interface)"})
 		}
 		if f := lookupMethod(fr.i, recv.t, call.Method); f == nil {
 			// Unreachable in well-typed programs.
@@ -473,7 +487,7 @@ func call(i *interpreter, caller *frame, callpos token.Pos, fn value, args []val
 	switch fn := fn.(type) {
 	case *ssa.Function:
 		if fn == nil {
-			panic("call of nil function") // nil of func type
+			panic(runtimePanic{"runtime error: invalid memory address or nil pointer dereference (call of nil func)"})
 		}
 		return callSSA(i, caller, callpos, fn, args, nil)
 	case *closure:
@@ -497,7 +511,6 @@ func loc(fset *token.FileSet, pos token.Pos) string {
 func callSSA(i *interpreter, caller *frame, callpos token.Pos, fn *ssa.Function, args []value, env []value) value {
 	if i.mode&EnableTracing != 0 {
 		fset := fn.Prog.Fset
-		// TODO(adonovan): fix: loc() lies for external functions.
 		fmt.Fprintf(os.Stderr, "Entering %s%s.\n", fn, loc(fset, fn.Pos()))
 		suffix := ""
 		if caller != nil {
@@ -512,16 +525,33 @@ func callSSA(i *interpreter, caller *frame, callpos token.Pos, fn *ssa.Function,
 	}
 	if fn.Parent() == nil {
 		name := fn.String()
+		if fn.Pkg != nil && strings.HasSuffix(fn.Pkg.Pkg.Path(), "/zzverif") {
+			return verifIntrinsic(fr, fn.Name(), args)
+		}
 		if ext := externals[name]; ext != nil {
 			if i.mode&EnableTracing != 0 {
 				fmt.Fprintln(os.Stderr, "\t(external)")
 			}
-			return ext(fr, args)
+			if r := ext(fr, args); r != useBody {
+				i.run.noteCall(fn, true)
+				return r
+			}
+		}
+		// Package initializers run only for whitelisted packages.
+		if fn.Synthetic == "package initializer" && fn.Pkg != nil {
+			if i.inited[fn.Pkg] {
+				return nil
+			}
+			if !i.initAllowed(fn.Pkg) {
+				return nil
+			}
+			i.inited[fn.Pkg] = true
 		}
 		if fn.Blocks == nil {
-			panic("no code for function: " + name)
+			panic(engineErrorf("no code for function: %s (called from %s)", name, callerName(caller)))
 		}
 	}
+	i.run.noteCall(fn, false)
 
 	// generic function body?
 	if fn.TypeParams().Len() > 0 && len(fn.TypeArgs()) == 0 {
@@ -532,7 +562,7 @@ func callSSA(i *interpreter, caller *frame, callpos token.Pos, fn *ssa.Function,
 	fr.block = fn.Blocks[0]
 	fr.locals = make([]value, len(fn.Locals))
 	for i, l := range fn.Locals {
-		fr.locals[i] = zero(typeparams.MustDeref(l.Type()))
+		fr.locals[i] = zero(mustDeref(l.Type()))
 		fr.env[l] = &fr.locals[i]
 	}
 	for i, p := range fn.Params {
@@ -540,6 +570,12 @@ func callSSA(i *interpreter, caller *frame, callpos token.Pos, fn *ssa.Function,
 	}
 	for i, fv := range fn.FreeVars {
 		fr.env[fv] = env[i]
+	}
+	if caller != nil {
+		fr.depth = caller.depth + 1
+		if fr.depth > 3000 {
+			panic(budgetExceeded{"call depth > 3000 in " + fn.String()})
+		}
 	}
 	for fr.block != nil {
 		runFrame(fr)
@@ -551,44 +587,91 @@ func callSSA(i *interpreter, caller *frame, callpos token.Pos, fn *ssa.Function,
 	return fr.result
 }
 
+func callerName(fr *frame) string {
+	if fr == nil || fr.fn == nil {
+		return "<top>"
+	}
+	return fr.fn.String()
+}
+
+// budgetExceeded aborts a run that exceeded its instruction budget (the
+// engine's unwinding assertion).
+type budgetExceeded struct{ what string }
+
+// assumeFailed aborts a run whose inputs violate a harness assumption.
+type assumeFailed struct{ site string }
+
+// violation aborts a run at a failed verif.Assert / verif.Fail.
+type violation struct{ msg string }
+
+func isTargetPanic(r interface{}) bool {
+	switch r.(type) {
+	case targetPanic, runtimePanic:
+		return true
+	}
+	return false
+}
+
+// asEngineError wraps anything that is not a target panic or a run-control
+// signal, capturing the interpreter stack once.
+func asEngineError(r interface{}) interface{} {
+	switch r := r.(type) {
+	case targetPanic, runtimePanic, budgetExceeded, assumeFailed, violation, exitPanic:
+		return r
+	case engineError:
+		if r.stack == "" {
+			r.stack = string(debug.Stack())
+		}
+		return r
+	case runtime.Error:
+		return engineError{msg: "interpreter run-time error: " + r.Error(), stack: string(debug.Stack())}
+	default:
+		return engineError{msg: fmt.Sprintf("interpreter panic: %v", r), stack: string(debug.Stack())}
+	}
+}
+
 // runFrame executes SSA instructions starting at fr.block and
 // continuing until a return, a panic, or a recovered panic.
 //
-// After a panic, runFrame panics.
-//
-// After a normal return, fr.result contains the result of the call
-// and fr.block is nil.
-//
-// A recovered panic in a function without named return parameters
-// (NRPs) becomes a normal return of the zero value of the function's
-// result type.
-//
-// After a recovered panic in a function with NRPs, fr.result is
-// undefined and fr.block contains the block at which to resume
-// control.
+// After a target panic, runFrame runs the frame's deferred calls and either
+// resumes at the Recover block or re-panics. Anything else (engine errors,
+// run-control signals) propagates untouched.
 func runFrame(fr *frame) {
 	defer func() {
 		if fr.block == nil {
 			return // normal return
 		}
-		if fr.i.mode&DisableRecover != 0 {
-			return // let interpreter crash
+		r := recover()
+		if !isTargetPanic(r) {
+			panic(asEngineError(r))
+		}
+		if fr.i.run.panicSite == "" && fr.cur != nil {
+			fr.i.run.panicSite = fr.fn.String() + " @ " + fr.i.site(fr.cur)
 		}
 		fr.panicking = true
-		fr.panic = recover()
+		fr.panic = r
 		if fr.i.mode&EnableTracing != 0 {
 			fmt.Fprintf(os.Stderr, "Panicking: %T %v.\n", fr.panic, fr.panic)
 		}
 		fr.runDefers()
 		fr.block = fr.fn.Recover
+		if fr.block == nil {
+			// recovered in a function without a recover block: return zero results
+			fr.result = zeroResults(fr.fn)
+		}
 	}()
 
+	run := fr.i.run
 	for {
 		if fr.i.mode&EnableTracing != 0 {
 			fmt.Fprintf(os.Stderr, ".%s:\n", fr.block)
 		}
 
 		nonPhis := executePhis(fr)
+		run.steps += int64(len(nonPhis))
+		if run.steps > run.budget {
+			panic(budgetExceeded{fmt.Sprintf("instruction budget %d exhausted in %s", run.budget, fr.fn)})
+		}
 		for _, instr := range nonPhis {
 			if fr.i.mode&EnableTracing != 0 {
 				if v, ok := instr.(ssa.Value); ok {
@@ -597,12 +680,28 @@ func runFrame(fr *frame) {
 					fmt.Fprintln(os.Stderr, "\t", instr)
 				}
 			}
+			fr.cur = instr
 			if visitInstr(fr, instr) == kReturn {
 				return
 			}
 			// Inv: kNext (continue) or kJump (last instr)
 		}
 	}
+}
+
+func zeroResults(fn *ssa.Function) value {
+	res := fn.Signature.Results()
+	switch res.Len() {
+	case 0:
+		return nil
+	case 1:
+		return zero(res.At(0).Type())
+	}
+	t := make(tuple, res.Len())
+	for k := range t {
+		t[k] = zero(res.At(k).Type())
+	}
+	return t
 }
 
 // executePhis executes the phi-nodes at the start of the current
@@ -621,16 +720,10 @@ func executePhis(fr *frame) []ssa.Instruction {
 	if firstNonPhi > 0 {
 		phis := fr.block.Instrs[:firstNonPhi]
 		// Execute parallel assignment of phis.
-		//
-		// See "the swap problem" in Briggs et al's "Practical Improvements
-		// to the Construction and Destruction of SSA Form" for discussion.
 		predIndex := slices.Index(fr.block.Preds, fr.prevBlock)
 		fr.phitemps = fr.phitemps[:0]
 		for _, phi := range phis {
 			phi := phi.(*ssa.Phi)
-			if fr.i.mode&EnableTracing != 0 {
-				fmt.Fprintln(os.Stderr, "\t", phi.Name(), "=", phi)
-			}
 			fr.phitemps = append(fr.phitemps, fr.get(phi.Edges[predIndex]))
 		}
 		for i, phi := range phis {
@@ -646,24 +739,21 @@ func doRecover(caller *frame) value {
 	// function (two levels beneath the panicking function) to
 	// have any effect.  Thus we ignore both "defer recover()" and
 	// "defer f() -> g() -> recover()".
-	if caller.i.mode&DisableRecover == 0 &&
-		caller != nil && !caller.panicking &&
+	if caller != nil && !caller.panicking &&
 		caller.caller != nil && caller.caller.panicking {
 		caller.caller.panicking = false
 		p := caller.caller.panic
 		caller.caller.panic = nil
+		caller.i.run.recovered++
+		caller.i.run.recoveredSites = append(caller.i.run.recoveredSites, caller.i.run.panicSite)
+		caller.i.run.panicSite = ""
 
-		// TODO(adonovan): support runtime.Goexit.
 		switch p := p.(type) {
 		case targetPanic:
 			// The target program explicitly called panic().
 			return p.v
-		case runtime.Error:
-			// The interpreter encountered a runtime error.
-			return iface{caller.i.runtimeErrorString, p.Error()}
-		case string:
-			// The interpreter explicitly called panic().
-			return iface{caller.i.runtimeErrorString, p}
+		case runtimePanic:
+			return iface{caller.i.runtimeErrorString, p.msg}
 		default:
 			panic(fmt.Sprintf("unexpected panic type %T in target call to recover()", p))
 		}
@@ -671,85 +761,4 @@ func doRecover(caller *frame) value {
 	return iface{}
 }
 
-// Interpret interprets the Go program whose main package is mainpkg.
-// mode specifies various interpreter options.  filename and args are
-// the initial values of os.Args for the target program.  sizes is the
-// effective type-sizing function for this program.
-//
-// Interpret returns the exit code of the program: 2 for panic (like
-// gc does), or the argument to os.Exit for normal termination.
-//
-// The SSA program must include the "runtime" package.
-//
-// Type parameterized functions must have been built with
-// InstantiateGenerics in the ssa.BuilderMode to be interpreted.
-func Interpret(mainpkg *ssa.Package, mode Mode, sizes types.Sizes, filename string, args []string) (exitCode int) {
-	i := &interpreter{
-		prog:       mainpkg.Prog,
-		globals:    make(map[*ssa.Global]*value),
-		mode:       mode,
-		sizes:      sizes,
-		goroutines: 1,
-	}
-	runtimePkg := i.prog.ImportedPackage("runtime")
-	if runtimePkg == nil {
-		panic("ssa.Program doesn't include runtime package")
-	}
-	i.runtimeErrorString = runtimePkg.Type("errorString").Object().Type()
-
-	initReflect(i)
-
-	i.osArgs = append(i.osArgs, filename)
-	for _, arg := range args {
-		i.osArgs = append(i.osArgs, arg)
-	}
-
-	for _, pkg := range i.prog.AllPackages() {
-		// Initialize global storage.
-		for _, m := range pkg.Members {
-			switch v := m.(type) {
-			case *ssa.Global:
-				cell := zero(typeparams.MustDeref(v.Type()))
-				i.globals[v] = &cell
-			}
-		}
-	}
-
-	// Top-level error handler.
-	exitCode = 2
-	defer func() {
-		if exitCode != 2 || i.mode&DisableRecover != 0 {
-			return
-		}
-		switch p := recover().(type) {
-		case exitPanic:
-			exitCode = int(p)
-			return
-		case targetPanic:
-			fmt.Fprintln(os.Stderr, "panic:", toString(p.v))
-		case runtime.Error:
-			fmt.Fprintln(os.Stderr, "panic:", p.Error())
-		case string:
-			fmt.Fprintln(os.Stderr, "panic:", p)
-		default:
-			fmt.Fprintf(os.Stderr, "panic: unexpected type: %T: %v\n", p, p)
-		}
-
-		// TODO(adonovan): dump panicking interpreter goroutine?
-		// buf := make([]byte, 0x10000)
-		// runtime.Stack(buf, false)
-		// fmt.Fprintln(os.Stderr, string(buf))
-		// (Or dump panicking target goroutine?)
-	}()
-
-	// Run!
-	call(i, nil, token.NoPos, mainpkg.Func("init"), nil)
-	if mainFn := mainpkg.Func("main"); mainFn != nil {
-		call(i, nil, token.NoPos, mainFn, nil)
-		exitCode = 0
-	} else {
-		fmt.Fprintln(os.Stderr, "No main function.")
-		exitCode = 1
-	}
-	return
-}
+var _ = log.Fatal
